@@ -147,6 +147,19 @@ def run(sc):
     seams.set_alloc("NATIVE")
     return {"violations": viols, "stats": stats}
 
+  # ---- an earlier, unrelated keyframe reset in the same process (another Data of the same size, another key): nothing of it may
+  # survive into the call under test (host-side buffers reused between calls, caches keyed by shape only)
+  rd = _rng.gen("decoy", sc["key_seed"])
+  if rd.random() < 0.5 and nkey >= 1:
+    Z = mk(None)
+    if rd.random() < 0.6:
+      dk = int(rd.integers(0, nkey))
+      if not isinstance(key, list) and nkey >= 2 and dk == key:
+        dk = (dk + 1) % nkey
+      mjw.reset_data_keyframe(m, Z, dk)
+    else:
+      mjw.reset_data_keyframe(m, Z, wp.array(np.asarray([int(rd.integers(-1, nkey + 1)) for _ in range(nworld)], dtype=np.int32), dtype=int))
+    fault("earlier_keyframe_reset_on_another_data")
   # ---- the call (A only)
   if isinstance(key, list):
     mjw.reset_data_keyframe(m, A, wp.array(np.asarray(key, dtype=np.int32), dtype=int))
